@@ -41,15 +41,17 @@ Definition next_size (ks : list Z) : Z * list Z :=
   match ks with [] => (1, []) | [k] => (k, [k]) | k :: r => (k, r) end.
 
 (** drain: read until the first non-OK status (inclusive); bounded by fuel *)
-Fixpoint drain {R} (rd : R -> Z -> (bytes * rstat) * R) (fuel : nat) (r : R) (ks : list Z) : list V :=
+(** every entry: the bytes and status of one Read, and how much of the client's body had been
+    consumed when it returned ([total] bytes at the start, [upof] what is left) *)
+Fixpoint drain {R} (rd : R -> Z -> (bytes * rstat) * R) (upof : R -> up) (total : Z) (fuel : nat) (r : R) (ks : list Z) : list V :=
   match fuel with
   | O => [VErr "fuel"]
   | S f =>
       let '(k, ks') := next_size ks in
       let '((d, st), r') := rd r k in
-      let entry := VL [VS d; V_rstat st] in
+      let entry := VL [VS d; V_rstat st; VZ (total - zlen (flat (upof r')))] in
       match st with
-      | SOk => entry :: drain rd f r' ks'
+      | SOk => entry :: drain rd upof total f r' ks'
       | _ => [entry]
       end
   end.
@@ -64,9 +66,10 @@ Definition run_reader : runner := fun suite i =>
     let u := up_of (vnth 2 i) in
     let ks := sizes_of (vnth 3 i) in
     let fuel := (4 * (length (flat u) + 8))%nat in
+    let total := zlen (flat u) in
     if vz (vnth 4 i) =? 2
-    then Some (VL (drain (fun u0 k => up_read k u0) fuel u ks))
+    then Some (VL (drain (fun u0 k => up_read k u0) (fun u0 => u0) total fuel u ks))
     else if vz (vnth 4 i) =? 0
-    then Some (VL (drain (er_read cx) fuel (er_init u) ks))
-    else Some (VL (drain (tr_read (length (flat u) + 4) cx o) fuel (tr_init u) ks))
+    then Some (VL (drain (er_read cx) er_up total fuel (er_init u) ks))
+    else Some (VL (drain (tr_read (length (flat u) + 4) cx o) tr_up total fuel (tr_init u) ks))
   else None.
